@@ -9,6 +9,10 @@ def check(run):
     jobs = [("MC_Binding.cfg", "values", {}), ("MC_Binding.cfg", "valuesbody", {"VERIF_C11_BODY": "1"}), ("MC_Binding_seq.cfg", "seq", {})]
     if run.tier == "thorough":
         jobs += [("MC_Binding_seq3.cfg", "seq3", {}), ("MC_Binding_seq3.cfg", "seq3body", {"VERIF_C11_BODY": "1"})]
+    m = run.tlc("Binding", "MC_Binding_mutant.cfg", workers=4, heap="2g", name="Binding_mutant")
+    if "Invariant RoundTrip is violated" not in m["out"]:
+        raise core.Inconclusive("vacuity guard: a holder that keeps stale entries for an empty slice must violate RoundTrip")
+    run.extra["vacuity_guard"] = "Binding.tla with KeepStale = TRUE violates RoundTrip"
     tot = collections.Counter()
     ncases = 0
     for cfg, name, env in jobs:
